@@ -223,11 +223,27 @@ def run(ctx, drv):
             x = rng.choice([y, y, next_up(y), next_down(y), y + 1, y - 1, rng.uniform(-5, 5), 0.1 + 0.2, 1e16, -1e16, 0.3])
             if rng.random() < 0.2:
                 x = int(round(x)) if abs(x) < 1e9 else x
+            if decl and rng.random() < 0.35:
+                opname, y = decl[-1]                  # runs of equal declarations (declared by one broadcast below)
             decl.append((opname, y)); vals.append(x)
         p = C.Problem(1, 1, nc, function=lambda v, vals=vals: ([0.0], list(vals)))
         p.types[:] = C.FixedLengthArray.__new__(C.FixedLengthArray) if False else __import__("platypus").Real(0, 1)
-        spell = rng.randrange(3)
-        if spell == 0:
+        spell = rng.randrange(4)
+        if spell == 3:
+            # one relation broadcast over each maximal run of equal declarations: constraints[i:j] = "<=0" / a Constraint object
+            runs_ = []
+            i = 0
+            while i < nc:
+                j = i
+                while j + 1 < nc and decl[j + 1] == decl[i]:
+                    j += 1
+                runs_.append((i, j + 1))
+                i = j + 1
+            rng.shuffle(runs_)                        # in any order: a slice assignment must not disturb the other slots
+            for i, j in runs_:
+                o, y = decl[i]
+                p.constraints[i:j] = rng.choice([lambda: o + repr(y), lambda: C.Constraint(o, y), lambda: C.Constraint(o + " " + repr(y))])()
+        elif spell == 0:
             p.constraints[:] = [o + repr(y) for o, y in decl]
         elif spell == 1:
             for i, (o, y) in enumerate(decl):
@@ -239,8 +255,20 @@ def run(ctx, drv):
                 p.constraints[:] = [C.Constraint(o + repr(y)) for o, y in decl]
         s = C.Solution(p)
         s.variables[:] = [0.5]
-        r = call(s.evaluate)
-        inp = {"constraints": [o + repr(y) for o, y in decl], "values": vals}
+        via = rng.choice(["Solution.evaluate", "Solution.evaluate", "Algorithm.evaluate_all with an evaluator that returns copies"])
+        if via == "Solution.evaluate":
+            r = call(s.evaluate)
+        else:
+            import copy as _copy
+            from platypus import evaluator as E_
+
+            class _Alg(C.Algorithm):
+                def step(self):
+                    pass
+            alg_ = _Alg(p, evaluator=E_.MapEvaluator(map_func=lambda f, jobs: [f(_copy.deepcopy(j)) for j in jobs]))
+            r = call(alg_.evaluate_all, [s])
+        inp = {"constraints": [o + repr(y) for o, y in decl], "values": vals, "declared_by": ["list of strings", "Constraint per index", "list of Constraints / one string", "broadcast over slices"][spell],
+               "evaluated_via": via}
         if isinstance(r, str):
             ctx.fail("evaluate-raises", inp, r, "evaluated solution", "core.Problem.__call__")
             continue
